@@ -166,6 +166,7 @@ struct M {
     if (o == "makeDirected") { G.makeDirected(); return "ok"; }
     if (o == "makeUndirected") { G.makeUndirected(); return "ok"; }
     if (o == "setRoot") { Peek::setRoot(G, a(1)); return "ok"; }
+    if (o == "orientate") { G.orientate(); return "ok"; }
     return "";
   }
 
@@ -364,6 +365,11 @@ struct M {
     if (op == "o.addEdgeIndex") return U(o.addEdgeIndex(E(k, lbl(t[2]))));
     if (op == "o.setEdgeLinking") { o.setEdgeLinking(N(k, lbl(t[2])), N(k, lbl(t[3])), E(k, lbl(t[4]))); return "ok"; }
     if (op == "o.setRoot") { o.setRoot(N(k, lbl(t[2]))); return "ok"; }
+    if (op == "o.rereg") {   // a second registration of the same observer must be refused
+      std::string r;
+      try { g->registerObserver(&o); r = "ok"; } catch (Exception&) { r = "exc:bpp"; }
+      return r + " reg " + U(Peek::nObservers(*g));
+    }
     // ---- queries
     if (op == "o.qn") {
       NP a = N(k, lbl(t[2]));
